@@ -64,6 +64,18 @@ fn same_set(a: &[Permission], b: &[Permission]) -> bool {
     subset(a, b) && subset(b, a)
 }
 
+/// A `Vec` whose buffer is a harness-owned array instead of a heap block.
+///
+/// The functions under contract take the AST by shared reference, so they can
+/// neither grow nor free this buffer, and the harness keeps it in `ManuallyDrop`;
+/// reading it yields exactly the elements of the array. It exists because CBMC
+/// pays ~25x more for one of these large AST enums stored in an (untyped) heap
+/// object than in a typed local (measured: `kql_permissions` on one BELIEF pattern
+/// 160 s of symbolic execution with `vec![..]`, 6 s with this buffer).
+fn borrowed_vec<T, const N: usize>(items: &ManuallyDrop<[T; N]>) -> Vec<T> {
+    unsafe { Vec::from_raw_parts(items.as_ptr() as *mut T, N, N) }
+}
+
 fn sc() -> Scalar {
     Scalar::Param(String::new())
 }
@@ -169,21 +181,18 @@ fn c_merge() -> MutationClause {
 
 /// One table cell: the clause alone and as a one-clause statement.
 fn cell(clause: MutationClause, expected: &[Permission]) {
-    let clause = ManuallyDrop::new(clause);
-    let got = ManuallyDrop::new(clause_permissions(&clause));
+    let clauses = ManuallyDrop::new([clause]);
+    let got = ManuallyDrop::new(clause_permissions(&clauses[0]));
     assert!(got.len() != 0, "OBL:C19.gate.no_ungoverned_clause");
     assert!(same_set(&got, expected), "OBL:C19.gate.clause_table");
-    let stmt = ManuallyDrop::new(KmlStatement {
-        explicit_transaction: kani::any(),
-        clauses: vec![ManuallyDrop::into_inner(clause)],
-    });
+    let stmt = ManuallyDrop::new(KmlStatement { explicit_transaction: kani::any(), clauses: borrowed_vec(&clauses) });
     let all = ManuallyDrop::new(kml_permissions(&stmt));
     assert!(same_set(&all, expected), "OBL:C19.gate.kml_union");
 }
 
 // One harness per table cell: moving these large AST enums is what CBMC pays for
 // (measured: one MutationClause construction = 52k symex steps / 4.4 s; four cells in
-// one harness 94-160 s, one cell 8-12 s), so the cells run as separate small harnesses.
+// one harness 94-160 s), so the cells run as separate small harnesses.
 macro_rules! clause_cell {
     ($name:ident, $clause:expr, $expected:expr) => {
         #[kani::proof]
@@ -217,7 +226,8 @@ clause_cell!(c19_gate_clause_merge_concept, c_merge(), [P::MergeIdentity, P::Mai
 /// Two-clause statements: the statement asks for every permission either clause
 /// asks for, and for nothing else (pairs with disjoint and with overlapping sets).
 fn pair(a: MutationClause, b: MutationClause, ea: &[Permission], eb: &[Permission]) {
-    let stmt = ManuallyDrop::new(KmlStatement { explicit_transaction: true, clauses: vec![a, b] });
+    let clauses = ManuallyDrop::new([a, b]);
+    let stmt = ManuallyDrop::new(KmlStatement { explicit_transaction: true, clauses: borrowed_vec(&clauses) });
     let all = ManuallyDrop::new(kml_permissions(&stmt));
     assert!(subset(ea, &all) && subset(eb, &all), "OBL:C19.gate.kml_union");
     let mut i = 0;
@@ -267,11 +277,12 @@ fn w_belief_slot() -> WhereClause {
     WhereClause::BeliefSlot { variable: String::new(), subject: var(), predicate: PredAtom::Literal(String::new()) }
 }
 
-fn kql(where_clauses: Vec<WhereClause>, as_of: Option<AsOf>, projects: bool) {
+fn kql<const N: usize>(patterns: [WhereClause; N], as_of: Option<AsOf>, projects: bool) {
+    let patterns = ManuallyDrop::new(patterns);
     let historical = as_of.is_some();
     let q = ManuallyDrop::new(KqlQuery {
         find_clause: Default::default(),
-        where_clauses,
+        where_clauses: borrowed_vec(&patterns),
         as_of,
         for_time: None,
         epistemic: None,
@@ -286,6 +297,17 @@ fn kql(where_clauses: Vec<WhereClause>, as_of: Option<AsOf>, projects: bool) {
     assert!(subset(&got, &[P::Read, P::ReadHistory, P::Project]), "OBL:C19.gate.kql_nothing_else");
 }
 
+/// NOT / OPTIONAL / UNION blocks, their inner patterns in a harness-owned buffer too.
+fn not_block<const N: usize>(inner: &ManuallyDrop<[WhereClause; N]>) -> WhereClause {
+    WhereClause::Not(borrowed_vec(inner))
+}
+fn optional_block<const N: usize>(inner: &ManuallyDrop<[WhereClause; N]>) -> WhereClause {
+    WhereClause::Optional(borrowed_vec(inner))
+}
+fn union_block<const N: usize>(inner: &ManuallyDrop<[WhereClause; N]>) -> WhereClause {
+    WhereClause::Union(borrowed_vec(inner))
+}
+
 macro_rules! kql_case {
     ($name:ident, $where:expr, $as_of:expr, $projects:expr) => {
         #[kani::proof]
@@ -297,26 +319,58 @@ macro_rules! kql_case {
     };
 }
 
-kql_case!(c19_gate_kql_plain, vec![w_concept()], None, false);
-kql_case!(c19_gate_kql_no_pattern, Vec::new(), None, false);
-kql_case!(c19_gate_kql_as_of_seq, vec![w_concept()], Some(AsOf::Seq(sc())), false);
-kql_case!(c19_gate_kql_as_of_tx, Vec::new(), Some(AsOf::Tx(sc())), false);
-kql_case!(c19_gate_kql_as_of_time, Vec::new(), Some(AsOf::Time(sc())), false);
-kql_case!(c19_gate_kql_belief, vec![w_belief()], None, true);
-kql_case!(c19_gate_kql_belief_slot_second, vec![w_concept(), w_belief_slot()], None, true);
-kql_case!(c19_gate_kql_belief_historical, vec![w_belief_slot()], Some(AsOf::Seq(sc())), true);
+kql_case!(c19_gate_kql_plain, [w_concept()], None, false);
+kql_case!(c19_gate_kql_no_pattern, [], None, false);
+kql_case!(c19_gate_kql_as_of_seq, [w_concept()], Some(AsOf::Seq(sc())), false);
+kql_case!(c19_gate_kql_as_of_tx, [], Some(AsOf::Tx(sc())), false);
+kql_case!(c19_gate_kql_as_of_time, [], Some(AsOf::Time(sc())), false);
+kql_case!(c19_gate_kql_belief, [w_belief()], None, true);
+kql_case!(c19_gate_kql_belief_slot_second, [w_concept(), w_belief_slot()], None, true);
+kql_case!(c19_gate_kql_belief_historical, [w_belief_slot()], Some(AsOf::Seq(sc())), true);
+
 // depth 1: inside NOT / OPTIONAL / UNION
-kql_case!(c19_gate_kql_belief_in_not, vec![WhereClause::Not(vec![w_belief()])], None, true);
-kql_case!(c19_gate_kql_belief_in_optional, vec![WhereClause::Optional(vec![w_concept(), w_belief_slot()])], None, true);
-kql_case!(c19_gate_kql_belief_in_union, vec![WhereClause::Union(vec![w_belief()])], None, true);
+#[kani::proof]
+#[kani::unwind(4)]
+fn c19_gate_kql_belief_in_not() {
+    let inner = ManuallyDrop::new([w_belief()]);
+    kql([not_block(&inner)], None, true);
+    kani::cover!(true, "COVER:reach");
+}
+
+#[kani::proof]
+#[kani::unwind(4)]
+fn c19_gate_kql_belief_in_optional() {
+    let inner = ManuallyDrop::new([w_concept(), w_belief_slot()]);
+    kql([optional_block(&inner)], None, true);
+    kani::cover!(true, "COVER:reach");
+}
+
+#[kani::proof]
+#[kani::unwind(4)]
+fn c19_gate_kql_belief_in_union() {
+    let inner = ManuallyDrop::new([w_belief()]);
+    kql([union_block(&inner)], None, true);
+    kani::cover!(true, "COVER:reach");
+}
+
 // depth 2
-kql_case!(
-    c19_gate_kql_belief_depth2,
-    vec![WhereClause::Union(vec![WhereClause::Optional(vec![w_belief()])])],
-    None,
-    true
-);
-kql_case!(c19_gate_kql_nested_no_belief, vec![WhereClause::Not(vec![WhereClause::Union(vec![w_concept()])])], None, false);
+#[kani::proof]
+#[kani::unwind(4)]
+fn c19_gate_kql_belief_depth2() {
+    let innermost = ManuallyDrop::new([w_belief()]);
+    let inner = ManuallyDrop::new([optional_block(&innermost)]);
+    kql([union_block(&inner)], None, true);
+    kani::cover!(true, "COVER:reach");
+}
+
+#[kani::proof]
+#[kani::unwind(4)]
+fn c19_gate_kql_nested_no_belief() {
+    let innermost = ManuallyDrop::new([w_concept()]);
+    let inner = ManuallyDrop::new([union_block(&innermost)]);
+    kql([not_block(&inner)], None, false);
+    kani::cover!(true, "COVER:reach");
+}
 
 // ---------------------------------------------------------------------------
 // META
